@@ -523,6 +523,12 @@ def inheritedMembers (mro : List (List Member)) : List Member :=
       | .indexError => none
     else none)).flatten
 
+/-- templatewriter.search.get_all_documents_flattenable and LunrIndexWriter.get_corpus:
+`for ob in system.allobjects.values() if ob.isVisible` — the documents of all-documents.html and of the lunr
+corpus come in the order of the registry (`allobjects`, a dict: insertion order), hidden objects dropped. -/
+def documentOrder (allobjects : List (Name × Bool)) : List Name :=
+  (allobjects.filter (·.2)).map (·.1)
+
 /-- the executable property predicate for part 1: a site function gives the same answer on two
 enumerations -/
 def sameOn {α β : Type} [BEq β] (f : List α → β) (e₁ e₂ : List α) : Bool := f e₁ == f e₂
